@@ -693,3 +693,40 @@ func (c *Ctx) loopVisitsAll(fn *ssa.Function, loop map[*ssa.BasicBlock]bool, con
 	}
 	c.R.Check(bad == "", construct, c.pos(p), okMsg, badMsg)
 }
+
+// projectionComplete: fn turns a list into another list, one element per
+// element: its (single) loop adds an element on every iteration and is not left
+// early. A projection that filters hides elements from everything written
+// against the interface.
+func (c *Ctx) projectionComplete(fn *ssa.Function, what string) {
+	if fn == nil || fn.Blocks == nil {
+		c.R.Unknown(what, "", "function not found")
+		return
+	}
+	c.mech(fn)
+	loops := cfgx.Loops(fn)
+	if len(loops) != 1 {
+		c.R.Unknown(load.FuncName(fn)+": "+what, c.pos(fn.Pos()), "expected exactly one loop")
+		return
+	}
+	for _, loop := range loops {
+		through := map[*ssa.BasicBlock]bool{}
+		for b := range loop {
+			for _, in := range b.Instrs {
+				switch x := in.(type) {
+				case *ssa.Store:
+					if _, ok := x.Addr.(*ssa.IndexAddr); ok {
+						through[b] = true
+					}
+				case ssa.CallInstruction:
+					if bi, ok := x.Common().Value.(*ssa.Builtin); ok && bi.Name() == "append" {
+						through[b] = true
+					}
+				}
+			}
+		}
+		by, w := cfgx.LoopBypass(loop, through, nil, c.posf())
+		exits, _ := cfgx.OnlyHeaderExits(loop)
+		c.R.Check(len(through) > 0 && !by && exits, load.FuncName(fn)+": "+what, c.pos(firstPos(cfgx.LoopHeader(loop))), "every element of the list yields an element of the result", "the projection can skip an element (or stop early): callers written against the interface never see it", w...)
+	}
+}
